@@ -125,3 +125,37 @@ V('c18-fix-find-groups', 'C18', 'hl7apy/parser.py',
   "                    segment = parse_segment(s.strip(), version, encoding_chars, validation_level)\n                    segments.append(segment)",
   "                    segment = parse_segment(s.strip(), version, encoding_chars, validation_level,\n                                            _flat_reference(references, segment_name))\n                    segments.append(segment)",
   expect='fixed:C18-F|parser.parse_segments')
+
+# ---------------------------------------------------------------- C10
+V('c10-parser-writes-list', 'C10', 'hl7apy/parser.py',
+  "                        if current_parent is None:\n                            segments.append(segment)\n                        else:\n                            current_parent.add(segment)\n                        break",
+  "                        if current_parent is None:\n                            segments.append(segment)\n                        else:\n                            current_parent.children.list.append(segment)\n                            segment._parent = current_parent\n                        break",
+  rule='C10-W1')
+V('c10-delitem-forgets-index', 'C10', 'hl7apy/core.py',
+  "        child = self.list[index]\n        self._remove_from_index(child)\n        del self.list[index]",
+  "        child = self.list[index]\n        del self.list[index]", rule='C10-W2')
+V('c10-remove-forgets-list', 'C10', 'hl7apy/core.py',
+  "                self._remove_from_index(child)\n                self.list.remove(child)",
+  "                self._remove_from_index(child)", rule='C10-W2')
+V('c10-insert-skips-index-on-keyerror', 'C10', 'hl7apy/core.py',
+  "            except KeyError:\n                self.indexes[child.name] = [child]\n            self.list.insert(index, child)",
+  "            except KeyError:\n                pass\n            self.list.insert(index, child)", rule='C10-W2')
+V('c10-append-bypasses-admission', 'C10', 'hl7apy/core.py',
+  "        if self._can_add_child(child):\n            if self.element == child.parent:\n                self._remove_from_traversal_index(child)\n                self.list.append(child)",
+  "        self.list.append(child)\n        if self._can_add_child(child):\n            if self.element == child.parent:\n                self._remove_from_traversal_index(child)",
+  rule='C10-V')
+V('c10-version-check-dropped', 'C10', 'hl7apy/core.py',
+  "                if self.element.version != child.version:\n                    raise OperationNotAllowed('Cannot add a child with a different HL7 version')\n",
+  "", rule='C10-V')
+V('c10-level-check-softened', 'C10', 'hl7apy/core.py',
+  "                if self.element.validation_level != child.validation_level:\n                    raise OperationNotAllowed('Cannot add a child with a different validation_level')",
+  "                if self.element.validation_level != child.validation_level:\n                    child.validation_level = self.element.validation_level",
+  rule='C10-V')
+V('c10-len-counts-shadow', 'C10', 'hl7apy/core.py',
+  "    def __len__(self):\n        return len(self.list)\n\n    def __getitem__(self, index):\n        return self.list[index]\n\n    def __delitem__(self, index):\n        child = self.list[index]",
+  "    def __len__(self):\n        return len(self.list) + len(self.traversal_indexes)\n\n    def __getitem__(self, index):\n        return self.list[index]\n\n    def __delitem__(self, index):\n        child = self.list[index]",
+  rule='C10-L')
+V('c10-fix-reparenting', 'C10', 'hl7apy/core.py',
+  "    def _set_parent(self, parent):\n        self._parent = parent",
+  "    def _set_parent(self, parent):\n        old = getattr(self, '_parent', None)\n        if old is not None and parent is not None and old is not parent:\n            old.children.remove(self)\n        self._parent = parent",
+  expect='fixed:C10-R')
